@@ -95,7 +95,7 @@ package badger
 // tombstones included, of every datum in the interval) and the per-datum group boundary is the
 // MaxVersionKey of the datum currently being collected.
 //@ func BadgerDB.versionedRange
-//@   prop C05 C06
+//@   prop C05 C06 C01
 //@   safety_off
 //@   calls_havoc
 //@   modifies *
@@ -115,7 +115,7 @@ package badger
 // (ghost pending = deletes in the current, not yet committed batch), and an error reported by the
 // scanning goroutine (version resolution failure, iterator error) is never turned into success.
 //@ func BadgerDB.DeleteRange
-//@   prop C05
+//@   prop C05 C01
 //@   safety_off
 //@   calls_havoc
 //@   modifies *
@@ -175,3 +175,17 @@ package badger
 //@   ghostset after "result := <-ch": sawErr = sawErr || result.error != nil
 //@   invariant loop 1: !sawErr
 //@   ensures result1 == nil && db != nil && ctx != nil ==> !sawErr
+
+// sendKV (C05, C01): every non-empty group of stored versions of a datum is resolved by the DAG
+// resolver (VersionedKeyValue) and by nothing else: what is sent is what the resolver returned, an error
+// of the resolver is sent as an error, and nothing is sent when the resolver finds no live value.
+//@ func sendKV
+//@   prop C05 C01
+//@   safety_off
+//@   calls_havoc
+//@   modifies *
+//@   ghost resolved bool = false
+//@   ghostset after "kv, err := vctx.VersionedKeyValue(values)": resolved = true
+//@   assert at "ch <- errorableKV{nil, err}": resolved
+//@   assert at "ch <- errorableKV{kv, nil}": resolved
+//@   ensures len(values) != 0 ==> resolved
